@@ -3,6 +3,7 @@
 package ev
 
 import (
+	"bytes"
 	"bufio"
 	"encoding/json"
 	"fmt"
@@ -454,4 +455,30 @@ func RapidSeed(offset uint64) {
 		s = 1
 	}
 	_ = flagSet("rapid.seed", strconv.FormatUint(s, 10))
+}
+
+var journalFile *os.File
+
+// Journal records the case about to be executed so that, if the subject code
+// kills the whole process (a panic in one of the library's own worker
+// goroutines, a fatal runtime error), the driver still has the failing case:
+// it becomes the replay file of a "crash" violation.
+func Journal(check string, c any) {
+	if st.replayDoc != nil {
+		return
+	}
+	if journalFile == nil {
+		_ = os.MkdirAll(filepath.Join(Root(), "out"), 0o755)
+		f, err := os.Create(filepath.Join(Root(), "out", st.prop+".current.json"))
+		if err != nil {
+			return
+		}
+		journalFile = f
+	}
+	b, err := json.Marshal(map[string]any{"property": st.prop, "check": check, "key": "crash", "case": c, "tier": st.tier, "seed": st.seed})
+	if err != nil {
+		return
+	}
+	_, _ = journalFile.WriteAt(append(b, bytes.Repeat([]byte{' '}, 64)...), 0)
+	_ = journalFile.Truncate(int64(len(b)))
 }
